@@ -13,7 +13,20 @@ from .model import own_nodes
 MUTATORS = {"append", "extend", "insert", "remove", "pop", "clear", "sort", "reverse", "update", "add", "discard", "setdefault", "popitem"}
 
 
-def check(prog, run, rule_id, prefixes, floor, consequence):
+def _exposes_internal(prog, attr):
+    """some method of that name returns (a part of) an attribute of self without copying it"""
+    for m in prog.methods_named(attr):
+        for n in own_nodes(m.node):
+            if isinstance(n, ast.Return) and n.value is not None:
+                v = n.value
+                while isinstance(v, (ast.Subscript, ast.Attribute)):
+                    if isinstance(v, ast.Attribute) and isinstance(v.value, ast.Name) and v.value.id == "self":
+                        return True
+                    v = v.value
+    return False
+
+
+def check(prog, run, rule_id, prefixes, floor, consequence, getters=False):
     r = run.rule(rule_id, "in %s no local bound directly to an attribute of another object (`xs = source.values`, no slice / list() / "
                           "comprehension / copy) is later mutated in place (append/extend/insert/remove/pop/clear/sort/update/add, `+=`, "
                           "item or slice assignment): %s" % (", ".join(p + "/**" for p in prefixes), consequence), floor)
@@ -31,6 +44,15 @@ def check(prog, run, rule_id, prefixes, floor, consequence):
                     root = root.value
                 if isinstance(root, ast.Name):
                     aliases[n.targets[0].id] = n
+            elif getters and isinstance(n, ast.Assign) and len(n.targets) == 1 and isinstance(n.targets[0], ast.Name) and isinstance(n.value, ast.Call) \
+                    and isinstance(n.value.func, ast.Attribute) and _exposes_internal(prog, n.value.func.attr):
+                aliases[n.targets[0].id] = n      # the result of a getter that hands out the object's own collection
+            elif getters and isinstance(n, ast.Call) and isinstance(n.func, ast.Attribute) and n.func.attr in MUTATORS and isinstance(n.func.value, ast.Call) \
+                    and isinstance(n.func.value.func, ast.Attribute) and _exposes_internal(prog, n.func.value.func.attr):
+                r.instance("%s: `%s`" % (f.qualname, " ".join(ast.unparse(n).split())[:60]))
+                run.report(r, "%s:%s:aliased-collection-mutated(%s)" % (f.module.name, f.qualname, ast.unparse(n.func.value.func)), f.where(n),
+                           "`%s` changes in place the collection `%s` hands out: the object it belongs to is modified too"
+                           % (" ".join(ast.unparse(n).split())[:70], ast.unparse(n.func.value.func)))
         aliases = {k: v for k, v in aliases.items() if counts.get(k) == 1}
         for name, bind in aliases.items():
             r.instance("%s: `%s`" % (f.qualname, " ".join(ast.unparse(bind).split())[:60]))
